@@ -193,35 +193,68 @@ def run(ctx):
              'byte swap and the psf_fwrite of that chunk; unchunked callers pass (ptr, len, 0)', floor=14)
     ctx.rule('PEAK-ALIGN', 'in every chunked caller the chunk length handed to the per-channel scan is a multiple of the channel count: an assignment rounds it (x -= x % channels, or x = n - n % channels, '
              'or (x / channels) * channels) before the loop', floor=10)
+    import re as _re18
+    slotted = {g_.name for fld_ in ('write_short', 'write_int', 'write_float', 'write_double') for g_ in prog.slot_fns(fld_)}
+
+    def _align(g, lv, key, where):
+        rounded = False
+        for (x, n, rhs) in assigned_lvalues(g):
+            if x != lv or rhs is None:
+                continue
+            r = g.s(rhs)
+            if n['k'] == 'CompoundAssignOperator' and n['op'] == '-=' and r == '(%s %% psf->sf.channels)' % lv:
+                rounded = True
+            if '% psf->sf.channels)' in r and ' - ' in r:
+                rounded = True
+            if '/ psf->sf.channels) * psf->sf.channels)' in r:
+                rounded = True
+        ctx.ob('PEAK-ALIGN', key, rounded, where, 'chunk length `%s` %s' % (lv, 'is rounded to whole frames' if rounded else
+               'is NOT a multiple of the channel count (e.g. 2048 items with 3 channels): the per-channel scan of the 2nd chunk starts mid-frame and attributes peaks to the wrong channel'), None)
+
     for f in prog.lib_fns():
         base = f.file.split('/')[-1]
         if base not in ('float32.c', 'double64.c'):
             continue
         for c in f.calls(('float32_peak_update', 'double64_peak_update')):
             args = [f.s(f.unwrap(a)) for a in f.args(c)]
-            in_loop = any(a['k'] in ('WhileStmt', 'ForStmt') for a in f.ancestors(c))
+            in_loop = any(a['k'] in ('WhileStmt', 'ForStmt', 'DoStmt') for a in f.ancestors(c))
             key = '%s@%d' % (f.name, len([x for x in f.calls(c['callee']) if x['id'] <= c['id']]))
+            fw = list(f.calls('psf_fwrite'))
+            sw = [x for x in f.calls() if (x.get('callee') or '').startswith('endswap_') or (x.get('callee') or '') in ('f2bf_array', 'd2bd_write')]
             if in_loop:
                 ok = args[3] == '(total / psf->sf.channels)' and args[1].startswith('ubuf.')
-                fw = list(f.calls('psf_fwrite'))
-                sw = [x for x in f.calls() if (x.get('callee') or '').startswith('endswap_') or (x.get('callee') or '') in ('f2bf_array', 'd2bd_write')]
                 order = all(c['id'] < x['id'] or not _same_loop(f, c, x) for x in fw + sw)
                 ctx.ob('PEAK-CALL', key, ok and order, f.loc(c), 'peak update on %s, length %s, frame offset %s; %s' % (args[1], args[2], args[3], 'before swap/write' if order else 'AFTER swap/write'), None)
-                # alignment of the chunk length variable
-                lv = args[2]
-                rounded = False
-                for (x, n, rhs) in assigned_lvalues(f):
-                    if x != lv or rhs is None:
-                        continue
-                    r = f.s(rhs)
-                    if n['k'] == 'CompoundAssignOperator' and n['op'] == '-=' and r == '(%s %% psf->sf.channels)' % lv:
-                        rounded = True
-                    if '% psf->sf.channels)' in r and ' - ' in r:
-                        rounded = True
-                    if '/ psf->sf.channels) * psf->sf.channels)' in r:
-                        rounded = True
-                ctx.ob('PEAK-ALIGN', key, rounded, f.loc(c), 'chunk length `%s` %s' % (lv, 'is rounded to whole frames' if rounded else
-                       'is NOT a multiple of the channel count (e.g. 2048 items with 3 channels): the per-channel scan of the 2nd chunk starts mid-frame and attributes peaks to the wrong channel'), None)
+                _align(f, args[2], key, f.loc(c))
+            elif f.static and f.name not in slotted and fw:
+                # the tail of the chunk loops (peak update, swap, write) was moved into a helper: the ordering is decided here, the arguments at every call of the helper
+                # no swap / write of the chunk can come before the update (the update may sit under `if (psf->peak_info)`, so it need not dominate them)
+                pc_ = f.cfg.point(c)
+                order = pc_ is not None and all(f.cfg.point(x) is None or (f.cfg.point(x)[0] != pc_[0] and f.cfg.path_avoiding(f.cfg.point(x), {pc_[0]}, set()) is None)
+                                                or (f.cfg.point(x)[0] == pc_[0] and f.cfg.point(x)[1] > pc_[1]) for x in fw + sw)
+                sites = [(g, hc) for g in prog.lib_fns() if g.file == f.file for hc in g.calls(f.name)]
+                ctx.require(sites, '%s holds a peak update but is never called' % f.name)
+                for g, hc in sites:
+                    sub = {}
+                    for p_, a_ in zip(f.params, g.args(hc)):
+                        au = g.unwrap(a_ if isinstance(a_, dict) else g.N[a_])
+                        if au.get('k') == 'UnaryOperator' and au.get('op') == '&':
+                            sub[p_['n'] + '->'] = g.s(g.unwrap(g.N[au['kids'][0]])) + '.'
+                        else:
+                            sub[p_['n']] = g.s(au)
+                    def S_(t):
+                        for k_, v_ in sub.items():
+                            if k_.endswith('->'):
+                                t = t.replace(k_, v_)
+                            else:
+                                t = _re18.sub(r'(?<![\w>.])%s(?![\w])' % _re18.escape(k_), v_.replace('\\', '\\\\'), t)
+                        return t
+                    a2 = [S_(x) for x in args]
+                    gkey = '%s@%d' % (g.name, len([x for x in g.calls(f.name) if x['id'] <= hc['id']]))
+                    gl = any(a['k'] in ('WhileStmt', 'ForStmt', 'DoStmt') for a in g.ancestors(hc))
+                    ok = gl and a2[3] == '(total / psf->sf.channels)' and a2[1].startswith('ubuf.')
+                    ctx.ob('PEAK-CALL', gkey, ok and order, g.loc(hc), 'peak update (in %s) on %s, length %s, frame offset %s; %s' % (f.name, a2[1], a2[2], a2[3], 'before swap/write' if order else 'AFTER swap/write'), None)
+                    _align(g, a2[2], gkey, g.loc(hc))
             else:
                 ok = args[3] == '0' and args[1] == f.params[1]['n'] and args[2] == f.params[2]['n']
                 ctx.ob('PEAK-CALL', key, ok, f.loc(c), 'unchunked peak update on (%s, %s, %s)' % (args[1], args[2], args[3]), None)
@@ -281,16 +314,62 @@ def run(ctx):
         bad = [r for r in f.cfg.returns() if first is not None and f.cfg.dominates(first, r) and not any(f.cfg.dominates(x, r) for x in restores)]
         ctx.ob('CALC-RESTORE', '%s:returns' % name, not bad, f.loc(f.body), 'no return between the state change and its restore' if not bad else 'return at %s leaves the handle changed' % [f.loc(r) for r in bad], None)
 
-    ctx.rule('SCAN-ALL', 'the scan loops of psf_calc_signal_max / psf_calc_max_all_channels visit every item of every block they read: for (k = 0 ; k < readcount ; k++) — '
+    ctx.rule('SCAN-ALL', 'the scan loops of psf_calc_signal_max / psf_calc_max_all_channels visit every item of every block they read (index 0 .. count - 1 with step 1, or a cursor from the start of the buffer with step 1 bounded by the count): '
              'a loop that starts at 1 never compares the first item of each block', floor=2)
+    LOOPK = ('ForStmt', 'WhileStmt', 'DoStmt')
     for name in ('psf_calc_signal_max', 'psf_calc_max_all_channels'):
         f = prog.fn(name, 'command.c')
-        loops = [n for n in f.walk() if n['k'] == 'ForStmt' and 'cond' in n and 'init' in n and 'readcount' in f.s(n['cond']) and f.s(n['init']).replace(' ', '').startswith('(k=')]
-        ctx.require(loops, '%s: no scan loop over readcount found' % name)
-        for k_, lp in enumerate(loops):
-            ini, cnd, inc = f.s(lp['init']).replace(' ', ''), f.s(lp['cond']).replace(' ', ''), f.s(lp['inc']).replace(' ', '') if 'inc' in lp else ''
-            ok = ini == '(k=0)' and cnd == '(k<readcount)' and inc in ('k++', '(k++)', '++k', '(++k)', '(k+=1)')
-            ctx.ob('SCAN-ALL', '%s#%d' % (name, k_ + 1), ok, f.loc(lp), 'scan loop %s ; %s ; %s%s' % (ini, cnd, inc, '' if ok else ' — does not cover every item of the block: a maximum at a skipped index is not found'), None)
+        # roles: the read that fills the block (result variable RC, buffer BUF), and the loops after it inside the same read loop that look at BUF
+        rds = [(lv, n, f.unwrap(rhs)) for (lv, n, rhs) in assigned_lvalues(f) if rhs is not None and f.unwrap(rhs).get('callee') in ('sf_read_double', 'sf_readf_double')
+               and any(a_['k'] in LOOPK for a_ in f.ancestors(n))]
+        ctx.require(rds, '%s: no block read inside a loop found' % name)
+        scans = []
+        for (rc, rn, call) in rds:
+            buf = f.s(f.unwrap(f.args(call)[1]))
+            outer = [a_ for a_ in f.ancestors(rn) if a_['k'] in LOOPK][0]
+            for lp in f.walk(f.N[outer['body']]):
+                if lp['k'] not in LOOPK or lp['id'] == outer['id']:
+                    continue
+                if any(x['k'] == 'DeclRefExpr' and x.get('n') == buf for x in f.walk(lp)):
+                    scans.append((lp, rc, buf))
+        ctx.require(scans, '%s: no scan loop over the block that was read found' % name)
+        for k_, (lp, rc, buf) in enumerate(scans):
+            # every assignment that belongs to the loop header or body, by variable
+            hdr = [x for part in ('init', 'inc') if part in lp for x in f.walk(f.N[lp[part]])]
+            inits = {}
+            if 'init' in lp:
+                for x in f.walk(f.N[lp['init']]):
+                    if x['k'] == 'BinaryOperator' and x.get('op') == '=':
+                        inits[f.s(f.unwrap(f.N[x['kids'][0]]))] = f.s(f.unwrap(f.N[x['kids'][1]]))
+                    if x['k'] == 'DeclStmt':
+                        for d_ in x.get('decls', []):
+                            if 'init' in d_ and d_['init'] >= 0:
+                                inits[d_['n']] = f.s(f.unwrap(f.N[d_['init']]))
+            steps = {}
+            for x in f.walk(lp):
+                if x['k'] == 'UnaryOperator' and x.get('op') in ('++', 'post++', '--', 'post--'):
+                    steps.setdefault(f.s(f.unwrap(f.N[x['kids'][0]])), []).append(1 if '+' in x['op'] else -1)
+                if x['k'] == 'CompoundAssignOperator' and x.get('op') in ('+=', '-=') and f.unwrap(f.N[x['kids'][1]]).get('v') is not None:
+                    steps.setdefault(f.s(f.unwrap(f.N[x['kids'][0]])), []).append(f.unwrap(f.N[x['kids'][1]])['v'] * (1 if x['op'] == '+=' else -1))
+            cn = f.unwrap(f.N[lp['cond']]) if 'cond' in lp else {}
+            cl, cr, cop = (f.s(f.unwrap(f.N[cn['kids'][0]])), f.s(f.unwrap(f.N[cn['kids'][1]])), cn.get('op')) if cn.get('k') == 'BinaryOperator' else (None, None, None)
+            # how the block is addressed in the body: BUF [i] or * cursor
+            subs = {f.s(f.unwrap(f.N[x['kids'][1]])) for x in f.walk(f.N[lp['body']]) if x['k'] == 'ArraySubscriptExpr' and f.s(f.unwrap(f.N[x['kids'][0]])) == buf}
+            curs = {f.s(f.unwrap(f.N[x['kids'][0]])) for x in f.walk(f.N[lp['body']]) if x['k'] == 'UnaryOperator' and x.get('op') == '*'}
+            form = None
+            for i_ in subs:
+                if inits.get(i_) == '0' and steps.get(i_) == [1] and cl == i_ and cr == rc and cop == '<':
+                    form = 'index %s = 0 ; %s < %s ; %s++' % (i_, i_, rc, i_)
+            for p_ in curs:
+                if inits.get(p_) == buf and steps.get(p_) == [1]:
+                    if cl == p_ and cop in ('<', '!=') and cr.replace(' ', '') in ('(%s+%s)' % (buf, rc), '(%s+%s)' % (rc, buf)):
+                        form = 'cursor %s = %s ; %s %s %s + %s ; %s++' % (p_, buf, p_, cop, buf, rc, p_)
+                    for c_ in steps:
+                        if c_ != p_ and inits.get(c_) == rc and steps.get(c_) == [-1] and cl == c_ and cr == '0' and cop in ('>', '!='):
+                            form = 'cursor %s = %s with count-down %s = %s ; %s %s 0' % (p_, buf, c_, rc, c_, cop)
+            ctx.ob('SCAN-ALL', '%s#%d' % (name, k_ + 1), form is not None, f.loc(lp), 'the scan visits items 0 .. %s - 1 of %s: %s' % (rc, buf, form) if form else
+                   'the scan loop (init %s, cond %s, steps %s) is not one of the covering forms: it does not visit every item of the block that was read, a maximum at a skipped index is not found' % (
+                       inits, f.s(cn)[:40] if cn else None, steps), None)
 
     ctx.rule('GET-MAX', 'psf_get_signal_max takes the maximum over k < channels of peaks [k].value; psf_get_max_all_channels copies peaks [k].value for k < channels; both refuse when there is no peak_info', floor=2)
     for name in ('psf_get_signal_max', 'psf_get_max_all_channels'):
